@@ -14,6 +14,7 @@ mod c15;
 mod c16;
 mod c17;
 mod c18;
+mod c20;
 mod jsonref;
 
 use hvcommon::args::Args;
@@ -41,6 +42,7 @@ fn main() {
         "c16" => c16::main(&args),
         "c17" => c17::main(&args),
         "c18" => c18::main(&args),
+        "c20" => c20::main(&args),
         other => {
             eprintln!("unknown sub-command {:?}", other);
             std::process::exit(2);
